@@ -387,7 +387,25 @@ def suites(tier, seed):
             # a placeholder in every step name: background steps of outline rows are then rebuilt per row
             # (feature background, then rule background, then the row's own steps - all of them)
             p["cfg"]["noise"] = {"step": "<x>"}
+            if i % 8 == 0:
+                # ... or only in every second step: a background with and without placeholders, copied per row all the same
+                p["cfg"]["noise"]["step_mod"] = 2
         cases.append(p)
+    # outline rows under a background of which only some steps carry a placeholder, rows that end differently
+    # (de-selected by the tags of their Examples block, stopped before they start, different outcome kinds)
+    for i in range(96 if thorough else 32):
+        cfg = rc.gen_cfg(rnd)
+        cfg.update(dry_run=False, continue_after_failed=False, noise={"step": "<x>", "step_mod": 2},
+                   expr=rnd.choice([None, ["has", "t1"], ["has", "t2"], ["not", "t1"], ["not", "t2"]]), stop=rnd.random() < 0.4)
+        own = [{"kind": rnd.choice(["pass", "pass", "fail", "error", "pending", "undefined", "skip"]), "id": 3 + k} for k in range(rnd.randint(1, 2))]
+        outline = {"kind": "outline", "id": 2, "tags": [], "steps": own,
+                   "examples": [{"id": 3, "tags": ["t1"], "rows": rnd.randint(1, 2)}, {"id": 4, "tags": ["t2"], "rows": rnd.randint(1, 2)}]}
+        bg = [{"kind": rnd.choice(["pass", "pass", "fail"]), "id": 1}, {"kind": "pass", "id": 2}]
+        if i % 2:
+            f = {"id": 1, "tags": [], "bg": bg, "items": [outline]}
+        else:
+            f = {"id": 1, "tags": [], "bg": None, "items": [{"kind": "rule", "id": 5, "tags": [], "bg": bg, "items": [outline]}]}
+        cases.append({"features": [f], "cfg": cfg})
     seqs = {"name": "sequences", "cases": cases, "impl": rc.impl_run, "oracle": oracle, "nontrivial": nontrivial,
             "histogram": rc.histogram, "shrink": rc.shrink_program, "exhaustive": True,
             "bound": "all outcome sequences over %d kinds up to length %d (x variants), random up to length 10" % (len(ALPHA), L),
